@@ -2,5 +2,18 @@ SPEC_PART = dict(
     props_file="C11_hll",
     legs=[dict(family="hll", focus="codec", oracles=["twin_ok", "prop_ok"], profiles=["debug", "release"],
                mask=[1, 2, 3, 4, 5, 7, 8], n_quick=40, n_thorough=500)],
-    trusted=[], assumptions=[], covers="hll: placeholder",
+    trusted=["hll: Model/HllCodec.v mirrors HllSketch::serialize / deserialize by hand; tied byte for byte (serialize) and state for "
+             "state (deserialize, then every further observation) by the correspondence run",
+             "hll: the bit-cast identity float_of_bits (bits_of_float f) = f for the three f64 fields of array images is not proved "
+             "(est_reread); the correspondence run compares hip/kxq0/kxq1 of original and copy bit for bit"],
+    assumptions=["hll: coupons with a value field in 1..63; 4 <= lg_k <= 21"],
+    covers="hll (all modes / types): deserialize(serialize(s)) = Ok s' for every well-formed sketch, in particular every state "
+           "reachable by updates, with s' = s in list mode (8 slots, same coupons: the repaired defect D1), the same coupon set / lg "
+           "size / count and a valid rebuilt table in set mode, the Array4 invariant for the same register file / cur_min / "
+           "num_at_cur_min in Hll4, the same registers and num_zeros in Hll6/Hll8, the out-of-order flag kept; the copy is again a "
+           "well-formed representation of the same abstract state, so C02's update theorems and C03's merge theorems apply to it "
+           "(partial for Hll6: the padding byte; estimator floats modulo the unproved bit-cast identity). Tie: twins -- group 0 forked "
+           "through serialize/deserialize at random points of the stream, group 1 not; dumps, estimates, bounds and re-serialized images "
+           "taken at the same positions must be identical across the twins and equal to the Spec, through promotions, set growth, "
+           "cur_min shifts and aux exceptions after the fork (debug + release).",
 )
